@@ -12,12 +12,127 @@ from . import ops
 NPROC = int(os.environ.get('PYVC_NPROC', '16'))
 
 
+def _positive_quantifiers(e, out, depth=0):
+    """universally quantified subformulas in positive position under conjunctions"""
+    if depth > 6:
+        return
+    if z3.is_quantifier(e) and e.is_forall():
+        out.append(e)
+    elif z3.is_and(e):
+        for c in e.children():
+            _positive_quantifiers(c, out, depth + 1)
+
+
+def _ground_apps(e, table, seen, bound_depth=0):
+    """applications f(t1..tn) of uninterpreted functions with ground arguments, outside any quantifier body"""
+    stack = [e]
+    while stack:
+        t = stack.pop()
+        i = t.get_id()
+        if i in seen:
+            continue
+        seen.add(i)
+        if z3.is_quantifier(t):
+            continue            # terms under binders are not ground
+        if z3.is_app(t):
+            if t.decl().kind() == z3.Z3_OP_UNINTERPRETED and t.num_args() > 0:
+                table.setdefault((t.decl().name(), t.num_args()), []).append(t)
+            stack.extend(t.children())
+
+
+def pre_instantiate(pc, goal, cap=160):
+    """Trigger-based instantiation done here, deterministically, before the solver sees the VC: for every universally
+    quantified hypothesis and every ground application in the quantifier-free part of the VC that matches one of its
+    triggers, the instance is added as a ground hypothesis (a logical consequence of the hypothesis: nothing is assumed).
+    Triggers: the declared single-term patterns; for single-variable quantifiers also every plain f(q) of the body (one
+    round only, so the matching loops that make such terms unusable as solver patterns cannot occur).  z3's own
+    e-matching of these VCs depends on random seeds and on what else the process has solved; with the first-round
+    instances given explicitly, the proofs that need only them no longer do."""
+    quants = []
+    for a in pc:
+        _positive_quantifiers(a, quants)
+    if not quants:
+        return []
+    table, seen = {}, set()
+    for a in list(pc) + [goal]:
+        _ground_apps(a, table, seen)
+    out, keys = [], set()
+    for q in quants:
+        n = q.num_vars()
+        if n > 2:
+            continue
+        cands = []
+        for pi in range(q.num_patterns()):
+            pat = q.pattern(pi)
+            if pat.num_args() == 1:           # multi-patterns are left to the solver
+                cands.append(pat.arg(0))
+        if n == 1:
+            have = set(c.get_id() for c in cands)
+            for t in _subterms(q.body()):
+                if z3.is_app(t) and t.decl().kind() == z3.Z3_OP_UNINTERPRETED and t.num_args() >= 1 and t.get_id() not in have \
+                        and any(z3.is_var(a_) for a_ in t.children()) \
+                        and all(z3.is_var(a_) or not any(z3.is_var(x) for x in _subterms(a_)) for a_ in t.children()):
+                    cands.append(t)
+                    have.add(t.get_id())
+        for p in cands:
+            if not (z3.is_app(p) and p.decl().kind() == z3.Z3_OP_UNINTERPRETED):
+                continue
+            args = [p.arg(i) for i in range(p.num_args())]
+            var_pos = {}
+            ok = True
+            for i, a_ in enumerate(args):
+                if z3.is_var(a_):
+                    var_pos.setdefault(z3.get_var_index(a_), i)
+                elif any(z3.is_var(x) for x in _subterms(a_)):
+                    ok = False
+            if not ok or len(var_pos) != n:
+                continue
+            for g in table.get((p.decl().name(), p.num_args()), []):
+                if any((not z3.is_var(a_)) and not a_.eq(g.arg(i)) for i, a_ in enumerate(args)):
+                    continue
+                # de Bruijn index k refers to bound variable number (n - 1 - k)
+                subst = [None] * n
+                for k, pos in var_pos.items():
+                    subst[n - 1 - k] = g.arg(pos)
+                if any(x is None for x in subst):
+                    continue
+                key = (q.get_id(), tuple(x.get_id() for x in subst))
+                if key in keys:
+                    continue
+                keys.add(key)
+                try:
+                    out.append(z3.substitute_vars(q.body(), *reversed(subst)))
+                except z3.Z3Exception:
+                    continue
+                if len(out) >= cap:
+                    return out
+    return out
+
+
+def _subterms(t):
+    stack, seen = [t], set()
+    while stack:
+        x = stack.pop()
+        if x.get_id() in seen:
+            continue
+        seen.add(x.get_id())
+        yield x
+        if z3.is_app(x):
+            stack.extend(x.children())
+
+
 def to_smt2(pc, goal, extra_axioms=()):
     s = z3.Solver()
     for a in extra_axioms:
         s.add(a)
     for a in pc:
         s.add(a)
+    if not os.environ.get('PYVC_NO_PREINST'):
+        try:
+            for a in pre_instantiate(list(pc), goal):
+                s.add(a)
+        except z3.Z3Exception:
+            pass
     s.add(z3.Not(goal))
     return s.to_smt2()
 
@@ -41,7 +156,10 @@ CONFIGS = {
 
 
 def _check_once(smt2, cfg, timeout_ms):
-    s = z3.Solver()
+    # a fresh context per query: the verdict for a given SMT-LIB text must not depend on which other obligations the same
+    # worker process happened to solve before (term ids and symbol tables of a shared context influence z3's heuristics)
+    ctx = z3.Context()
+    s = z3.Solver(ctx=ctx)
     for k, v in CONFIGS[cfg].items():
         s.set(k, v)
     s.set('timeout', timeout_ms)
@@ -109,7 +227,8 @@ def solve_task(task):
     total = 0.0
     for cfg in order:
         try:
-            r, dt, model, why = _check_once(smt2, cfg.replace('-short', ''), min(timeout_ms, 6000) if cfg.endswith('-short') else timeout_ms)
+            short_cap = 30000 if (len(task) > 7 and task[7]) else 6000
+            r, dt, model, why = _check_once(smt2, cfg.replace('-short', ''), min(timeout_ms, short_cap) if cfg.endswith('-short') else timeout_ms)
         except z3.Z3Exception as e:
             r, dt, model, why = 'unknown', 0.0, None, 'z3 exception: %s' % e
         total += dt
@@ -204,6 +323,21 @@ def discharge(obligations, timeout_s=10, pool=None):
         if own:
             pool.close()
             pool.join()
+    # second, patient pass for whatever stayed undecided: few processes (the first pass may have been starved by other work
+    # on the machine), four times the budget, a long MBQI stage.  Verdicts `proved` / `refuted` of the first pass are final.
+    again = [i for i, (r, t) in enumerate(zip(res, tasks)) if r['status'] == 'unknown' and not t[5]]
+    if again and not os.environ.get('PYVC_NO_RETRY'):
+        tasks2 = [tasks[i][:4] + (max(tasks[i][4] * 4, 60000),) + tasks[i][5:7] + (True,) for i in again]
+        pool2 = multiprocessing.get_context('fork').Pool(min(4, len(tasks2)))
+        try:
+            res2 = pool2.map(solve_task, tasks2, chunksize=1)
+        finally:
+            pool2.close()
+            pool2.join()
+        for i, r2 in zip(again, res2):
+            r2['time'] = r2.get('time', 0) + res[i].get('time', 0)
+            r2['retried'] = True
+            res[i] = r2
     for r, t in zip(res, tasks):
         r['smt2_len'] = len(t[1])
     return res
